@@ -516,6 +516,15 @@ def _main(prop, tier, seed, replay, tmpdir, t0):
         notallowed = {t: a for t, a in notallowed.items() if a}
         if notallowed:
             raise BuildError("theorems depend on axioms outside the stated base: %s" % notallowed)
+        if tier == "thorough" and not os.environ.get("VERIF_NO_COQCHK"):
+            # independent re-check of the compiled property file and everything it depends on
+            mod = "PB." + prop.PROPS[:-2].replace("/", ".")
+            rc, out = _sh("timeout 2400 coqchk -o -silent -Q theories PB %s" % mod, 2500, cwd=COQ)
+            m = re.search(r"\* Axioms:(.*?)\n\s*\n\* Constants/Inductives relying on type-in-type", out, flags=re.S)
+            axs = m.group(1).strip() if m else "?"
+            proof_state["coqchk"] = {"rc": rc, "axioms": axs}
+            if rc != 0 or axs != "<none>":
+                raise BuildError("coqchk did not accept %s (rc=%s, axioms=%s)" % (mod, rc, axs[:300]), out[-2000:])
     except BuildError as e:
         f, th = locate_error(e.log or "")
         proof_state["error"] = str(e) + "\n" + (e.log or "")[-3000:]
@@ -659,6 +668,7 @@ def _main(prop, tier, seed, replay, tmpdir, t0):
             ] + list(getattr(prop, "TRUSTED", [])),
             "theorems": proof_state["theorems"],
             "assumptions_by_theorem": proof_state["assumptions"],
+            "coqchk": proof_state.get("coqchk", "not run in this tier (thorough only)"),
             "evaluations": len([o for o in obs if o is not None]),
             "distinct_nontrivial": len(keys),
             "rule": getattr(prop, "RULE", ""),
